@@ -1,3 +1,5 @@
+//go:build drv_csvx || drv_all
+
 package main
 
 import (
